@@ -240,6 +240,52 @@ impl<'a> System<'a> for LogSys {
     }
 }
 
+/// The typed family: systems whose data is one of shred's OWN SystemData types over the static resources R0..R3 (the Option
+/// forms, tuples, the Expect forms, derived bundles incl. a generic one), so that what the scheduler is told (the type's
+/// reads() / writes()) and what fetch really borrows are both shred's.  model::TYPED lists what each really borrows.
+#[derive(shred::SystemData)]
+pub struct Timed<'a, D> {
+    pub clock: Read<'a, R1>,
+    pub data: D,
+}
+#[derive(shred::SystemData)]
+pub struct Pair<'a> {
+    pub a: Write<'a, R1>,
+    pub b: Read<'a, R0>,
+}
+macro_rules! typed {
+    ($name:ident, $data:ty) => {
+        pub struct $name {
+            uid: usize,
+            rt: u8,
+            ctx: Arc<Ctx>,
+        }
+        impl<'a> System<'a> for $name {
+            type SystemData = $data;
+            fn run(&mut self, _data: $data) {
+                self.ctx.ev(EvK::Enter, self.uid);
+                self.ctx.hold(self.uid);
+                self.ctx.ev(EvK::Exit, self.uid);
+            }
+            fn running_time(&self) -> RunningTime {
+                rt_of(self.rt)
+            }
+            fn setup(&mut self, _: &mut World) {
+                self.ctx.ev(EvK::Setup, self.uid);
+            }
+            fn dispose(self, _: &mut World) {
+                self.ctx.ev(EvK::Dispose, self.uid);
+            }
+        }
+    };
+}
+typed!(Ty0, Option<Write<'a, R0>>);
+typed!(Ty1, (Option<Read<'a, R1>>, Write<'a, R2>));
+typed!(Ty2, Timed<'a, Write<'a, R3>>);
+typed!(Ty3, Pair<'a>);
+typed!(Ty4, (shred::ReadExpect<'a, R2>, Option<Write<'a, R3>>));
+typed!(Ty5, (Option<Read<'a, R0>>, Read<'a, R3>));
+
 /// like LogSys, but it relies on the provided `System::setup` (= the setup of its system data through `self.accessor()`)
 pub struct LogSys2(LogSys);
 impl<'a> System<'a> for LogSys2 {
@@ -498,8 +544,15 @@ pub fn infos(case: &Case) -> Vec<Info> {
                     let uid = out.len();
                     let kind = if matches!(op, Op::Sys(_)) { Kind::Sys } else { Kind::Tl };
                     let deps = s.deps.iter().filter_map(|d| names.get(d).copied()).collect();
-                    let reads: BTreeSet<Res> = s.reads.iter().copied().collect();
-                    let writes: BTreeSet<Res> = s.writes.iter().copied().collect();
+                    let mut reads: BTreeSet<Res> = s.reads.iter().copied().collect();
+                    let mut writes: BTreeSet<Res> = s.writes.iter().copied().collect();
+                    if kind == Kind::Sys {
+                        if let Some((r, w)) = typed_access(s.zst) {
+                            // a member of the typed family borrows what its type says, whatever the case text lists
+                            reads = r.into_iter().collect();
+                            writes = w.into_iter().collect();
+                        }
+                    }
                     if kind == Kind::Sys {
                         ar.extend(reads.iter().copied());
                         aw.extend(writes.iter().copied());
@@ -604,7 +657,17 @@ pub fn apply(b: &mut Builder, op: &Op, uid: &mut usize, ctx: &Arc<Ctx>) {
             let my = *uid;
             *uid += 1;
             let deps: Vec<&str> = s.deps.iter().map(|d| d.as_str()).collect();
-            if my % 3 == 1 {
+            if typed_access(s.zst).is_some() {
+                let (uid, rt, ctx) = (my, s.rt, ctx.clone());
+                match s.zst - 10 {
+                    0 => b.add(Ty0 { uid, rt, ctx }, &s.name, &deps),
+                    1 => b.add(Ty1 { uid, rt, ctx }, &s.name, &deps),
+                    2 => b.add(Ty2 { uid, rt, ctx }, &s.name, &deps),
+                    3 => b.add(Ty3 { uid, rt, ctx }, &s.name, &deps),
+                    4 => b.add(Ty4 { uid, rt, ctx }, &s.name, &deps),
+                    _ => b.add(Ty5 { uid, rt, ctx }, &s.name, &deps),
+                }
+            } else if my % 3 == 1 {
                 let mut sys = mk_sys(s, my, ctx);
                 sys.acc.data_setup = Some((ctx.clone(), my));
                 b.add(LogSys2(sys), &s.name, &deps);
